@@ -119,6 +119,9 @@ def impl_construct(recipe):
     kind = recipe["type"]
     if kind == "NIRGraph":
         nodes = {name: impl_construct(r) for name, r in recipe["nodes"]}
+        for a, b in recipe.get("share", []):
+            if a in nodes and b in nodes:
+                nodes[b] = nodes[a]          # one object under two names
         kw = {}
         if recipe.get("meta") is not None:
             kw["metadata"] = build(recipe["meta"])
